@@ -15,7 +15,14 @@ MODULES = ['io', 'transform', 'gate', 'stats', 'mef', 'plot', 'excel_ui', '__ini
 
 
 class AnalysisError(Exception):
-    """The analysis itself cannot proceed (vanished anchor, unrecognised idiom, floor)."""
+    """A rule met code that does not have the documented structure it decides on (unrecognised idiom,
+    missing instance).  Raised inside a property's rules it is reported as a SHAPE violation: the
+    construct differs from the documented one and the rule cannot show the difference harmless."""
+
+
+class AnchorError(AnalysisError):
+    """The analysis itself cannot proceed: vanished anchor (module, class, function), unparsable
+    source, stale tables, failed self-test.  Always exit 2, never a verdict."""
 
 
 class ModuleInfo(object):
@@ -77,15 +84,15 @@ class Repo(object):
         self.mods = {}
         pkg = os.path.join(self.root, 'FlowCal')
         if not os.path.isdir(pkg):
-            raise AnalysisError('package directory %s not found' % pkg)
+            raise AnchorError('package directory %s not found' % pkg)
         for m in MODULES:
             p = os.path.join(pkg, m + '.py')
             if not os.path.isfile(p):
-                raise AnalysisError('module %s vanished' % p)
+                raise AnchorError('module %s vanished' % p)
             try:
                 self.mods[m] = ModuleInfo(m, p)
             except SyntaxError as e:
-                raise AnalysisError('cannot parse %s: %s' % (p, e))
+                raise AnchorError('cannot parse %s: %s' % (p, e))
         self.register_signatures()
 
     def register_signatures(self):
@@ -123,7 +130,7 @@ class Repo(object):
         """'io.FCSData.__getitem__' -> (ModuleInfo, FunctionDef).  A vanished anchor is an AnalysisError."""
         m, _, q = qual.partition('.')
         if m not in self.mods or q not in self.mods[m].funcs:
-            raise AnalysisError('anchor %s not found in the tree' % qual)
+            raise AnchorError('anchor %s not found in the tree' % qual)
         return self.mods[m], self.mods[m].funcs[q]
 
     def has_fn(self, qual):
@@ -133,7 +140,7 @@ class Repo(object):
     def cls(self, qual):
         m, _, q = qual.partition('.')
         if m not in self.mods or q not in self.mods[m].classes:
-            raise AnalysisError('anchor class %s not found in the tree' % qual)
+            raise AnchorError('anchor class %s not found in the tree' % qual)
         return self.mods[m], self.mods[m].classes[q]
 
     def digests(self, names=None):
@@ -194,7 +201,7 @@ class Context(object):
             self.ctx_frozen[k] = ctx
             return
         if k not in self.ctx_table:
-            raise AnalysisError('no recorded run context for %s (flowlint/contexts.json is stale: tools/freeze_contexts.py)' % k)
+            raise AnchorError('no recorded run context for %s (flowlint/contexts.json is stale: tools/freeze_contexts.py)' % k)
         want = self.ctx_table[k]
         ok = any(ctx[r] == want.get(r) for r in ctx)
         detail = ''
@@ -215,7 +222,7 @@ class Context(object):
             self.ctx_frozen[k] = got
             return
         if k not in self.ctx_table:
-            raise AnalysisError('no recorded return contexts for %s (flowlint/contexts.json is stale: tools/freeze_contexts.py)' % k)
+            raise AnchorError('no recorded return contexts for %s (flowlint/contexts.json is stale: tools/freeze_contexts.py)' % k)
         want = self.ctx_table[k]
         if any(got[r] == want.get(r) for r in got):
             self.ob('CONTEXT', 'the function returns under the documented conditions only', True, fn.mod, fn.ast, fn.qual,
@@ -270,6 +277,29 @@ class Context(object):
 
     def note(self, s):
         self.notes.append(s)
+
+
+def run_rules(cx, pid):
+    """Run the property's rules.  A rule that stops because the code lacks the documented structure is a
+    SHAPE violation naming the function and the expectation; anchors and internal errors propagate."""
+    import importlib
+    mod = importlib.import_module('flowlint.props.' + pid.lower())
+    try:
+        mod.run(cx)
+    except AnchorError:
+        raise
+    except AnalysisError as e:
+        msg = str(e)
+        m = re.match(r'^([A-Za-z_][\w.]*): ', msg)
+        fmod = node = qual = None
+        if m:
+            try:
+                fmod, node = cx.repo.fn(m.group(1))
+                qual = m.group(1)
+            except AnalysisError:
+                fmod = node = qual = None
+        cx.ob('SHAPE', 'the code has the documented structure the rules decide on', False, fmod, node, qual,
+              detail=msg + ' (remaining rules of this property were not evaluated)', key=re.sub(r'\d+', 'N', msg)[:200])
 
 
 # ---------------------------------------------------------------------------
